@@ -46,11 +46,14 @@ func (w *writeSet) union(o *writeSet) {
 	}
 }
 
+var bufSites = []string{"bytes.Buffer.$len|Int", "bytes.Buffer.$data|(Array Int (_ BitVec 8))", "bytes.Buffer.$frozen|Bool"}
+
 var libWrites = map[string][]string{
-	"(*bytes.Buffer).Write":       {"bytes.Buffer.buf#0|Int", "bytes.Buffer.buf#1|Int", "bytes.Buffer.buf#2|Int", "elem.uint8#0|(_ BitVec 8)"},
-	"(*bytes.Buffer).WriteByte":   {"bytes.Buffer.buf#0|Int", "bytes.Buffer.buf#1|Int", "bytes.Buffer.buf#2|Int", "elem.uint8#0|(_ BitVec 8)"},
-	"(*bytes.Buffer).WriteString": {"bytes.Buffer.buf#0|Int", "bytes.Buffer.buf#1|Int", "bytes.Buffer.buf#2|Int", "elem.uint8#0|(_ BitVec 8)"},
-	"bytes.NewBuffer":             {"bytes.Buffer.buf#0|Int", "bytes.Buffer.buf#1|Int", "bytes.Buffer.buf#2|Int", "bytes.Buffer.off#0|Int", "bytes.Buffer.lastRead#0|(_ BitVec 8)"},
+	"(*bytes.Buffer).Write":       bufSites,
+	"(*bytes.Buffer).WriteByte":   bufSites,
+	"(*bytes.Buffer).WriteString": bufSites,
+	"(*bytes.Buffer).Bytes":       append([]string{"elem.uint8#0|(_ BitVec 8)"}, bufSites...),
+	"bytes.NewBuffer":             append([]string{"bytes.Buffer.buf#0|Int", "bytes.Buffer.buf#1|Int", "bytes.Buffer.buf#2|Int", "bytes.Buffer.off#0|Int", "bytes.Buffer.lastRead#0|(_ BitVec 8)"}, bufSites...),
 	"bytes.Clone":                 {"elem.uint8#0|(_ BitVec 8)"},
 	"sort.Strings":                {"elem.string#0|Int", "elem.string#1|Int"},
 	"time.Now":                    {"ghost.clock|(_ BitVec 64)"},
@@ -110,6 +113,12 @@ func (u *Unit) writesOfInstr(ins ssa.Instruction, w *writeSet) {
 	case *ssa.Alloc:
 		w.alloc = true
 		w.addLeaves(x.Type().(*types.Pointer).Elem(), "elem")
+		if isBytesBuffer(x.Type().(*types.Pointer).Elem()) {
+			for _, s := range bufSites {
+				parts := strings.SplitN(s, "|", 2)
+				w.sites[parts[0]] = parts[1]
+			}
+		}
 	case *ssa.MakeSlice:
 		w.alloc = true
 		w.addLeaves(x.Type().Underlying().(*types.Slice).Elem(), "elem")
